@@ -32,4 +32,5 @@ def run(prog: Program, col: Collector, tier: str, refs: Optional[Refs] = None, c
     algebra.r_power(prog, col, refs, cat, "R02.4")
     algebra.r_seeds(prog, col, refs, cat, "R02.5")
     algebra.r_pushdown(prog, col, refs, cat, "R02.6")
+    algebra.r_same_op(prog, col, refs, cat, "R02.7")
     return col
